@@ -120,6 +120,12 @@ def extNumber (p : Bytes) : Option (Nat × Nat) :=
     | none => none
   | [] => none
 
+/-- flags used for a capture: the default encoding applies unless an encoding modifier was given
+    (`0 == (flags & ~(BURL_TOLOWER|BURL_TOUPPER))`); a lone case modifier does not suppress it -/
+def capFlags (fl : Nat) : Nat :=
+  if fl ||| (Extracted.burlToLower ||| Extracted.burlToUpper) = Extracted.burlToLower ||| Extracted.burlToUpper
+  then fl ||| Extracted.kvMod_default else fl
+
 /-- pcre_keyvalue_buffer_subst_ext(): `p` = template after "${" (or "%{"), `out` = result
     so far.  Returns the new result and the number of template bytes consumed after the '{'
     (through the closing '}'), or `none` for a malformed template (result is truncated).
@@ -133,8 +139,7 @@ def extGo (env : Env) (sigil : UInt8) (out : Bytes) : Bytes → Nat → Nat → 
       match extNumber p with
       | none => none
       | some (num, j) =>
-        let fl' := if fl = 0 then Extracted.kvMod_default else fl
-        some (out ++ capAppend env sigil num fl', pos + j + 1)
+        some (out ++ capAppend env sigil num (capFlags fl), pos + j + 1)
     else if b = rbrace then some (out, pos + 1)
     else if startsWith sEsc p then
       let q := p.drop 3
